@@ -872,6 +872,26 @@ def decide_extended_transform_flag(codec_features, flag_name, required):
         raise IncompatibleLevelAndExtendedTransformParametersError(codec_features)
 
 
+def assert_extended_transform_value_allowed(codec_features, flag_name, value_name):
+    """
+    Check that the level permits the value which will be coded (for
+    ``value_name``, e.g. "dwt_depth_ho") when the flag ``flag_name`` (e.g.
+    "asym_transform_flag") is set.
+
+    Raises
+    ======
+    vc2_conformance.encoder.exceptions.IncompatibleLevelAndExtendedTransformParametersError
+        If the level prohibits the value.
+    """
+    constrained_values = codec_features_to_trivial_level_constraints(codec_features)
+    constrained_values[flag_name] = True
+    permitted_values = allowed_values_for(
+        LEVEL_CONSTRAINTS, value_name, constrained_values
+    )
+    if codec_features[value_name] not in permitted_values:
+        raise IncompatibleLevelAndExtendedTransformParametersError(codec_features)
+
+
 def make_extended_transform_parameters(codec_features):
     """
     Create a :py:class:`vc2_conformance.bitstream.ExtendedTransformParameters`
@@ -888,6 +908,11 @@ def make_extended_transform_parameters(codec_features):
     )
     if etp["asym_transform_index_flag"]:
         etp["wavelet_index_ho"] = codec_features["wavelet_index_ho"]
+        assert_extended_transform_value_allowed(
+            codec_features,
+            "asym_transform_index_flag",
+            "wavelet_index_ho",
+        )
 
     etp["asym_transform_flag"] = decide_extended_transform_flag(
         codec_features,
@@ -896,6 +921,11 @@ def make_extended_transform_parameters(codec_features):
     )
     if etp["asym_transform_flag"]:
         etp["dwt_depth_ho"] = codec_features["dwt_depth_ho"]
+        assert_extended_transform_value_allowed(
+            codec_features,
+            "asym_transform_flag",
+            "dwt_depth_ho",
+        )
 
     return etp
 
